@@ -66,7 +66,7 @@ def candidates(n: int, U: np.ndarray, E: list) -> list[tuple[float, list, int]]:
     return cand
 
 
-def draw(kind: str, dim: int, n: int, bits: int, seed: int, stratum: str = "generic") -> dict:
+def draw(kind: str, dim: int, n: int, bits: int, seed: int, stratum: str = "generic", need_unique: bool = True) -> dict:
     """JSON-able case.  U_ij generic reals of random sign on the pattern `bits` (bit q <-> q-th pair in
     lexicographic order); two generations of drives + noise block."""
     P = pairs(n)
@@ -79,8 +79,10 @@ def draw(kind: str, dim: int, n: int, bits: int, seed: int, stratum: str = "gene
             if stratum == "wide":
                 v *= float(10.0 ** rng.integers(-3, 4))
             U[i, j] = U[j, i] = v
+        if not need_unique or stratum == "wide":
+            break
         vals = sorted(c[0] for c in candidates(n, U, E))
-        if stratum == "wide" or len(E) > 10 or all(b - a > 1e-7 for a, b in zip(vals, vals[1:])):
+        if stratum == "wide" or all(b - a > 1e-7 for a, b in zip(vals, vals[1:])):
             break
     drives = []
     for g in range(2):
@@ -238,7 +240,7 @@ def chunk_worker(arg: tuple) -> dict:
     kind, dim, n, bits_list, seed, stratum = arg
     res = {"n_cases": 0, "stages": 0, "margin": 0.0, "fails": {}, "sens": [0, 0], "nonempty": 0}
     for bits in bits_list:
-        case = draw(kind, dim, n, bits, seed, stratum)
+        case = draw(kind, dim, n, bits, seed, stratum, need_unique=False)
         o = run_case(case, False)
         res["n_cases"] += 1
         res["stages"] += o["stages"]
@@ -497,8 +499,8 @@ def run(ctx: Ctx) -> None:
                 for si, stratum in enumerate(strata):
                     bl = allb if si == 0 else [b for b in allb if (b * 2654435761 + si) % (4 if ns <= 5 else 16) == 0]
                     add(kind, dim, ns, bl, stratum, 64 if (dim == 2 or ns <= 4) else 16)
-    samples = {2: {6: ctx.pick(300, 0), 7: ctx.pick(100, 6000), 8: ctx.pick(20, 500)},
-               3: {5: ctx.pick(128, 0), 6: ctx.pick(8, 600), 7: ctx.pick(0, 30)}}
+    samples = {2: {6: ctx.pick(300, 0), 7: ctx.pick(100, 4000), 8: ctx.pick(20, 400)},
+               3: {5: ctx.pick(128, 0), 6: ctx.pick(8, 400), 7: ctx.pick(0, 24)}}
     for dim in (2, 3):
         for ns, cnt in samples[dim].items():
             for kind in ("rydberg", "xy"):
